@@ -77,9 +77,10 @@ func (d *FileDriver) Init() error {
 }
 
 func (d *FileDriver) Send(key, data []byte) error {
+	// hold the read lock while writing: a SIGHUP rotation must not close the file in between
 	d.lock.RLock()
+	defer d.lock.RUnlock()
 	w := d.w
-	d.lock.RUnlock()
 	verifPoint("file.send.picked")
 	_, err := fmt.Fprint(w, string(data)+d.lineSeparator)
 	return err
